@@ -265,7 +265,17 @@ func cmdCheck(argv []string) int {
 					continue
 				}
 				// compare observations and covers
-				if c.panicked != "" || !sameObs(c.witness.Obs, c.out) || !sameCovers(c.witness.Covers, c.out) {
+				mismatch := c.panicked != "" || !sameObs(c.witness.Obs, c.out) || !sameCovers(c.witness.Covers, c.out)
+				if c.witness.Concurrent {
+					// the native schedule is the runtime's: only an assertion failure or panic is a mismatch
+					mismatch = c.panicked != ""
+					for _, l := range c.out {
+						if strings.HasPrefix(l, "VERIF-ASSERT-FAIL") {
+							mismatch = true
+						}
+					}
+				}
+				if mismatch {
 					tracesMismatch++
 					inconclusive = append(inconclusive, fmt.Sprintf("%s: ENGINE-MISMATCH on witness %s: engine obs %v covers %v, native %v %s nondets %v", c.spec.Name, c.name, c.witness.Obs, c.witness.Covers, c.out, c.panicked, compactND(c.nondets)))
 				} else {
@@ -295,9 +305,9 @@ func cmdCheck(argv []string) int {
 			}
 			path := saveReplay(prop, c)
 			if !reproduced {
-				if v.Kind == "deadlock" || v.Kind == "race" || len(v.Sched) > 0 {
+				if v.Kind == "deadlock" || v.Kind == "race" || len(v.Gates) > 0 {
 					// schedule-dependent: needs the schedule replayer
-					if ok := scheduleReplay(ld, c); ok {
+					if ok := scheduleReplay(ld, k.dir, k.pkg, groups[k][0].Harness, entrySigs, c); ok {
 						reproduced = true
 					}
 				}
@@ -416,6 +426,7 @@ func saveReplay(prop string, c *replayCase) string {
 		doc["label"] = c.viol.Label
 		doc["detail"] = c.viol.Detail
 		doc["schedule"] = c.viol.Sched
+		doc["gates"] = c.viol.Gates
 		if in, ok := obsInput(c.viol); ok {
 			doc["input"] = in
 		}
@@ -427,11 +438,13 @@ func saveReplay(prop string, c *replayCase) string {
 	return path
 }
 
-// scheduleReplay is implemented in replay_sched.go when available.
-var scheduleReplay = func(ld *Loaded, c *replayCase) bool { return false }
 
 // nativeReplay compiles the harness natively with `go test -overlay` and runs all cases.
 func nativeReplay(ld *Loaded, dir, pkg string, harness []string, sigs map[string]*types.Signature, cases []*replayCase) error {
+	return nativeReplayWith(ld, dir, pkg, harness, sigs, cases, nil, nil)
+}
+
+func nativeReplayWith(ld *Loaded, dir, pkg string, harness []string, sigs map[string]*types.Signature, cases []*replayCase, extraOv map[string][]byte, extraEnv []string) error {
 	tmp, err := os.MkdirTemp("", "gosym-replay-")
 	if err != nil {
 		return err
@@ -497,6 +510,7 @@ func nativeReplay(ld *Loaded, dir, pkg string, harness []string, sigs map[string
 		zzLoaded = false
 		zzVec = nil
 		zzPos = 0
+		zzGateResetForCase()
 		func() {
 			defer func() {
 				if r := recover(); r != nil {
@@ -512,6 +526,9 @@ func nativeReplay(ld *Loaded, dir, pkg string, harness []string, sigs map[string
 }
 `)
 	ov[filepath.Join(ld.PkgDir, "zz_verif_replay_test.go")] = []byte(sb.String())
+	for k, v := range extraOv {
+		ov[k] = v
+	}
 	// write overlay files to tmp
 	repl := map[string]string{}
 	i := 0
@@ -557,6 +574,7 @@ func nativeReplay(ld *Loaded, dir, pkg string, harness []string, sigs map[string
 		run := exec.Command(bin, "-test.run", "^TestVerifReplay$", "-test.count=1", "-test.timeout=20s")
 		run.Dir = ld.PkgDir
 		run.Env = append(nativeGoEnv(tmp), "VERIF_REPLAY_LIST="+listPath, "VERIF_REPLAY_SKIP="+strconv.Itoa(skip))
+		run.Env = append(run.Env, extraEnv...)
 		out, _ := run.CombinedOutput()
 		lines := strings.Split(string(out), "\n")
 		cur := -1
@@ -644,6 +662,7 @@ func cmdReplayFile(prop, path string) int {
 		Nondets      []NDVal  `json:"nondets"`
 		Kind         string   `json:"kind"`
 		Label        string   `json:"label"`
+		Gates        []GateStep `json:"gates"`
 	}
 	if err := json.Unmarshal(raw, &doc); err != nil {
 		fatal(err)
@@ -657,7 +676,19 @@ func cmdReplayFile(prop, path string) int {
 		fatal(fmt.Errorf("entry %s not found", doc.Entry))
 	}
 	spec := &RunSpec{Name: doc.Harness, Dir: doc.Dir, Pkg: doc.Pkg, Harness: doc.HarnessFiles, Entry: doc.Entry, Args: doc.Args}
-	c := &replayCase{name: "replay", spec: spec, nondets: doc.Nondets, viol: &Violation{Kind: doc.Kind, Label: doc.Label}}
+	c := &replayCase{name: "replay", spec: spec, nondets: doc.Nondets, viol: &Violation{Kind: doc.Kind, Label: doc.Label, Gates: doc.Gates}}
+	if len(doc.Gates) > 0 {
+		if scheduleReplay(ld, doc.Dir, doc.Pkg, doc.HarnessFiles, map[string]*types.Signature{doc.Entry: entry.Signature}, c) {
+			fmt.Printf("VIOLATION property=%s replay=%s\n", prop, path)
+			return 1
+		}
+		for _, l := range c.out {
+			fmt.Println(l)
+		}
+		fmt.Println(c.panicked)
+		fmt.Println("replay did not reproduce a violation")
+		return 0
+	}
 	if err := nativeReplay(ld, doc.Dir, doc.Pkg, doc.HarnessFiles, map[string]*types.Signature{doc.Entry: entry.Signature}, []*replayCase{c}); err != nil {
 		fatal(err)
 	}
